@@ -75,6 +75,8 @@ type Ctx struct {
 	Notes         []string
 	Assumptions   []string
 	funcsAnalysed map[string]bool
+	loadedAll     bool
+	Extra         map[string]any // extra evidence (e.g. self-validation results of the thorough tier)
 }
 
 func NewCtx(prop, tier string) *Ctx {
@@ -91,6 +93,14 @@ func Fatal(format string, a ...any) {
 // Load loads the given package patterns (relative to the module path) from
 // /repo's working tree with full syntax and types.
 func (c *Ctx) Load(patterns ...string) {
+	if c.loadedAll {
+		return // the thorough tier loaded the whole module up front
+	}
+	for _, p := range patterns {
+		if p == "./..." {
+			c.loadedAll = true
+		}
+	}
 	cfg := &packages.Config{
 		Mode: packages.NeedName | packages.NeedFiles | packages.NeedCompiledGoFiles | packages.NeedImports |
 			packages.NeedDeps | packages.NeedTypes | packages.NeedSyntax | packages.NeedTypesInfo | packages.NeedTypesSizes | packages.NeedModule,
@@ -495,6 +505,7 @@ func (c *Ctx) Finish(verifDir string, meta Meta) int {
 			"exhaustive":         true,
 			"checker_cmd":        fmt.Sprintf("./check %s %s", c.Prop, c.Tier),
 			"notes":              c.Notes,
+			"thorough":           c.Extra,
 		},
 		"assumptions": append(append([]string{}, meta.Assumptions...), c.Assumptions...),
 		"wall_s":      time.Since(c.Start).Seconds(),
